@@ -31,6 +31,28 @@ Proof.
   unf. destruct (c =? 18446744073709551615) eqn:E2; cbn [negb andb orb]; lia.
 Qed.
 
+(* compile-time forms: the same conditions on the template arguments *)
+Lemma span_tfirst_exact n c : is_size_t c -> span_tfirst n c = pre_count n c.
+Proof. exact (span_first_exact n c). Qed.
+Lemma span_tlast_exact n c : is_size_t c -> span_tlast n c = pre_count n c.
+Proof. exact (span_last_exact n c). Qed.
+Lemma span_tsubspan_exact n off c : 0 <= n < two64 -> is_size_t off -> is_size_t c ->
+  span_tsubspan n off c = pre_span_subspan n off c.
+Proof. exact (span_subspan_exact n off c). Qed.
+Lemma span_tsubspan_site_spec n off c : is_size_t off ->
+  (span_tsubspan_site n off c = 0%nat <-> span_tsubspan n off c = true) /\ (span_tsubspan_site n off c = 1%nat <-> off > n).
+Proof.
+  intros Ho. unfold span_tsubspan_site. pose proof (u64_id off Ho) as Hu.
+  destruct (u64 off <=? n) eqn:E.
+  - destruct (span_tsubspan n off c); split; split; intros H; try discriminate; try reflexivity; lia.
+  - assert (G : span_tsubspan n off c = false) by (unfold span_tsubspan; rewrite E; reflexivity).
+    rewrite G. split; split; intros H; try discriminate; try reflexivity. lia.
+Qed.
+
+Lemma span_ctor_count_exact ext count : is_size_t ext -> is_size_t count ->
+  span_ctor_count ext count = pre_span_ctor ext count.
+Proof. intros He Hc. unfold span_ctor_count, pre_span_ctor. rewrite (u64_id ext He), (u64_id count Hc). reflexivity. Qed.
+
 Lemma sv_index_exact n i : is_size_t i -> sv_index n i = pre_index n i.
 Proof. intros Hi. unfold sv_index, pre_index. rewrite (u64_id i Hi). reflexivity. Qed.
 Lemma sv_front_exact n : 0 <= n -> sv_front n = pre_nonempty n.
